@@ -166,6 +166,21 @@ func (g *gen) goodValue(t ptype) *jv {
 			v.a = append(v.a, g.goodInt())
 		}
 		return v
+	case tStrs:
+		if g.pick("slicenull", 6, 1) == 1 {
+			return jnull()
+		}
+		n := g.intn("nstrs", 0, 3)
+		v := jarr()
+		for i := 0; i < n; i++ {
+			if g.pick("elemnull", 9, 1) == 1 { // null element of []string: encoding/json leaves it ""
+				g.c.Label("nested-null:slice-element")
+				v.a = append(v.a, jnull())
+				continue
+			}
+			v.a = append(v.a, jstr(sample(g, "gstr", goodStrings...)))
+		}
+		return v
 	case tStruct:
 		return g.goodStruct()
 	case tPtrStruct:
@@ -237,6 +252,8 @@ func (g *gen) badValue(t ptype) *jv {
 		return sample(g, "badbool", num, jstr("true"), arr, obj)
 	case tInts:
 		return sample(g, "badints", num, str, obj, jarr(jint(1), jstr("x")), jarr(fl), tr)
+	case tStrs:
+		return sample(g, "badstrs", num, str, obj, jarr(jstr("x"), jint(1)), jarr(arr), tr)
 	case tStruct, tPtrStruct:
 		return sample(g, "badstruct", num, str, arr, tr, jobj(mem("a", jint(0))), jobj(mem("a", jint(-3)), mem("b", jstr("x"))),
 			jobj(mem("a", jstr("x"))), jobj(mem("b", jstr("only-b"))), jobj(mem("a", jint(1)), mem("b", jint(2))), jobj(), jobj(mem("a", jnull()), mem("b", jstr("x"))))
@@ -272,6 +289,31 @@ func (g *gen) callArgs(sp *mspec) []*jv {
 
 func positional(vals []*jv) *jv { return jarr(vals...) }
 
+// labelOmittedTail records the dimension "k of the declared parameters supplied by position, the optional tail left
+// out": by handler kind (leading context or not) and by whether the first omitted parameter's Go type differs from
+// the type of the handler argument just before it (the supplied parameter k-1).
+func labelOmittedTail(c *stats.Case, sp *mspec, k int) {
+	if k <= 0 || k >= len(sp.params) {
+		return
+	}
+	kind := "plain-handler"
+	if sp.ctx {
+		kind = "ctx-handler"
+	}
+	c.Label("omitted-optional-tail(positional):" + kind)
+	if sp.params[k].t != sp.params[k-1].t {
+		c.Label("omitted-optional-tail(positional):" + kind + ",type-differs-from-preceding-argument")
+	}
+}
+
+// pickSpec draws the method of a call: the hand-written binding shapes or the fixed part of the signature matrix.
+func (g *gen) pickSpec(specs, matrix []*mspec) *mspec {
+	if len(matrix) > 0 && g.pick("table", 3, 2) == 1 {
+		return matrix[g.uniform("mxmethod", len(matrix))]
+	}
+	return specs[g.uniform("method", len(specs))]
+}
+
 // named renders the same logical arguments by name; optional parameters whose value is absent are left out.
 func (g *gen) named(sp *mspec, vals []*jv, drop map[int]bool) *jv {
 	var ms []member
@@ -300,6 +342,7 @@ func (g *gen) paramsFor(sp *mspec) (p *jv, scen string) {
 			}
 		}
 		if g.pick("form", 1, 1) == 0 {
+			labelOmittedTail(g.c, sp, len(vals))
 			return positional(vals), "positional"
 		}
 		// by name an optional parameter in the middle may be left out too
@@ -333,6 +376,7 @@ func (g *gen) paramsFor(sp *mspec) (p *jv, scen string) {
 			}
 		}
 		if g.pick("form", 1, 1) == 0 {
+			labelOmittedTail(g.c, sp, len(vals))
 			return positional(vals), "null-arg(positional)"
 		}
 		return g.named(sp, vals, nil), "null-arg(named)"
@@ -501,7 +545,7 @@ func (g *gen) requestObject() *jv {
 	var sp *mspec
 	switch g.pick("meth", 78, 8, 3, 3, 3, 2, 3) {
 	case 0:
-		sp = methodSpecs[g.uniform("method", len(methodSpecs))]
+		sp = g.pickSpec(baseSpecs, matrixSpecs)
 		if sp.name == "nilResult" && stats.Known(kNilRes) {
 			g.c.Excluded(kNilRes)
 			sp = specByName["noParams"]
@@ -526,6 +570,9 @@ func (g *gen) requestObject() *jv {
 		}
 		g.c.Label("params:" + scen)
 		g.c.Label("method:" + sp.shape)
+		if sp.matrix {
+			g.c.Labelf("matrix:params=%d,optional=%d", len(sp.params), len(sp.params)-sp.required())
+		}
 	} else {
 		switch g.pick("freeparams", 4, 2, 1, 1, 1, 1, 1) {
 		case 0:
